@@ -372,7 +372,16 @@ func ruleRegisterCallers(c *Ctx) []Obligation {
 				}
 			}
 			isItems := len(a.invokes(a.c.renderName())) > 0 && len(a.invokes(a.c.nullName())) > 0 // the list renderer
-			okCaller := (isRender && f.Signature.Recv() != nil && types.TypeString(f.Signature.Recv().Type(), shortQual) == "jen.token") || isItems
+			isTokRender := func(g *ssa.Function) bool {
+				for _, r := range c.codeImpls(c.renderName()) {
+					if r == g && g.Signature.Recv() != nil && types.TypeString(g.Signature.Recv().Type(), shortQual) == "jen.token" {
+						return true
+					}
+				}
+				return false
+			}
+			// token.render itself, the list renderer, or an unexported helper called only by token.render
+			okCaller := (isRender && isTokRender(f)) || isItems || (!isRender && c.onlyReachedFrom(f, isTokRender, 2))
 			o.req(okTok && okArg && okCaller, fname(f), "call of registration function", ci.Pos(),
 				"registration must happen only while a package token is being rendered (token.render) or pre-registered by the list renderer; facts=%s arg=%s", facts, arg)
 		}
